@@ -49,7 +49,7 @@ def under(path: str, base: str) -> bool:
 
 
 def run_history(acc: Acc, r: random.Random, workdir: str, hid: int, n_steps: int) -> None:
-	shape = r.choice(['chain', 'diamond'])
+	shape = r.choice(['chain', 'diamond', 'deep', 'deep'])
 	h = History(r, shape, workdir, f'h{hid}')
 	case_base = {'kind': 'history', 'seed': hid}
 	# first run creates the caches
